@@ -314,6 +314,20 @@ def corpus_cases():
     return corpus
 
 
+def compiled_paths(log):
+    """corpus/*.paths: opcode paths compiled by the model into fuzzer inputs (directed cases)"""
+    out = []
+    cdir = os.path.join(VERIF, 'corpus')
+    for f in sorted(os.listdir(cdir)) if os.path.isdir(cdir) else []:
+        if f.endswith('.paths'):
+            p = subprocess.run([DRIVER, 'paths', os.path.join(cdir, f)], stdout=subprocess.PIPE, stderr=subprocess.PIPE, text=True, env=ENV, timeout=600)
+            for l in p.stderr.splitlines():
+                log('paths: ' + l)
+            tag = os.path.splitext(f)[0][:3]
+            out += [l.replace('id=p', 'id=p%s' % tag, 1) for l in p.stdout.splitlines() if l.startswith('id=')]
+    return out
+
+
 def run_s1(seed, tier, log):
     """Runs the implementation (hooks on) over the case set and, on the recorded traces, the model:
     S1 = step-wise membership in the envelope + property oracles, S2 = bit-exact level-F model.
@@ -325,7 +339,7 @@ def run_s1(seed, tier, log):
         log('S1/S2: cached result %s' % key)
         return json.load(open(res_path))
     os.makedirs(d, exist_ok=True)
-    cases = corpus_cases() + gen_cases(seed, tier)
+    cases = corpus_cases() + compiled_paths(log) + gen_cases(seed, tier)
     cpath = os.path.join(d, 'cases.txt')
     with open(cpath, 'w') as f:
         f.write('\n'.join(cases) + '\n')
@@ -398,18 +412,27 @@ def run_c07(seed, tier, log):
         cpath = os.path.join(d, 'cases.txt')
         with open(cpath, 'w') as f:
             f.write('\n'.join(cs) + '\n')
-        p = subprocess.run([HBIN, 'results', cpath, str(th)], stdout=subprocess.PIPE, stderr=subprocess.PIPE, env=ENV, timeout=3000, text=True)
+        rpath = os.path.join(d, 'results.txt')
+        with open(rpath, 'w') as f:
+            p = subprocess.run([HBIN, 'results', cpath, str(th)], stdout=f, stderr=subprocess.PIPE, env=ENV, timeout=3000, text=True)
         if p.returncode != 0:
             raise Infra('harness results failed: %s' % p.stderr[-2000:])
-        for line in p.stdout.splitlines():
-            w = line.split(' ', 2)
-            if w[0] != 'RES':
-                continue
+        hs = result_hashes(rpath)
+        for cid, h in hs.items():
             nruns += 1
-            h = hashlib.sha1(w[2].strip().encode()).hexdigest()[:16]
-            if main['result_hash'].get(w[1]) != h:
-                props.append({'id': w[1], 'prop': 'C07', 'detail': 'output differs between the traced run and run "%s": %s' % (name, w[2][:120])})
-    res = dict(ok=[], diffs=[], props=props, stats={}, ncases=nruns, okn=nruns - len(props), nops=nruns,
+            if main['result_hash'].get(cid) != h:
+                props.append({'id': cid, 'prop': 'C07', 'detail': 'output differs between the traced run and run "%s"' % name})
+        # the single-output property oracles over the outputs of this run as well (another call history per process)
+        shards = shard_trace(rpath, 16)
+        procs = [subprocess.Popen([DRIVER, 'oracles', s_], stdout=subprocess.PIPE, stderr=subprocess.STDOUT, text=True, env=ENV) for s_ in shards]
+        outs = [q.communicate(timeout=3000)[0] for q in procs]
+        for pr in parse_verdicts('\n'.join(outs))['props']:
+            pr['detail'] += ' (in run "%s")' % name
+            props.append(pr)
+        for s_ in shards:
+            os.remove(s_)
+        os.remove(rpath)
+    res = dict(ok=[], diffs=[], props=props, stats={}, ncases=nruns, okn=nruns - len([p for p in props if p['prop'] == 'C07']), nops=nruns,
                specs=main['specs'], samples=cases[:2], runs=list(orders))
     json.dump(res, open(res_path, 'w'))
     log('c07: %d re-executions in %d processes, %d differ, %.1fs' % (nruns, len(orders), len(props), time.time() - t0))
